@@ -120,8 +120,14 @@ def run(R):
                      "event follows; no panic is reachable; and no path ignores the result of a fallible operation. State that later "
                      "behaviour reads (sleeping flag, options) is unchanged on error paths. Not decided: what a real controller does "
                      "with a half-sent command.")
+    from rules import C07 as _C07
     for cfg in R.configs:
         F = R.facts(cfg)
+        # "wedges nothing" for the parallel bus: the cached bus value must be invalidated by a failed pin
+        # update (the per-pin obligations of C07(b), re-checked here because this property depends on them)
+        for rec in F.trait_impl_method(TR.BUS, "set_value"):
+            width = 8 if rec["body"]["locals"][2]["ty"].get("s") == "u8" else 16
+            _C07.check_set_value(R, F, cfg, rec, width)
         ents = entries(F)
         R.floor("%s|functions with fallible operations" % cfg, len(ents), 30)
         nfail = 0
